@@ -106,6 +106,14 @@ def corpus():
                 ('define_macro', 'x', num(5)), ('define_macro', 'y', num(6)),
                 P(('call', 'f', [num(7)])),
                 ('repeat', ('count', num(2)), [P(('call', 'f', [num(3)]))])])
+    # deep recursion with a pending operand at every level (the call is the SECOND operand of the
+    # sum, so each activation leaves a value on the evaluation stack until its callee returns)
+    for depth in (40, 300, 700):
+        out.append([('define', 'sum_to', ['n'],
+                     [('if', ('expr', ('bin', '<=', v('n'), num(0))), [('return', num(0))], None),
+                      ('return', ('expr', ('bin', '+', v('n'),
+                                           ('call', 'sum_to', [('expr', ('bin', '-', v('n'), num(1)))]))))]),
+                    P(('call', 'sum_to', [num(depth)])), P(num(1))])
     # … and a macro defined BEFORE the routine: a parameter (or a local) of the same name hides it
     # for the whole body — value positions, loop bounds, command operands and arguments alike
     out.append([('define_macro', 'x', num(5)), ('define_macro', 'lamp', ('str', 'nolight')),
